@@ -243,6 +243,49 @@ pub fn check(rep: &mut Rep, w: &World, sc: i128, ss: TimeScale, ec: i128, es: Ti
     }
 }
 
+/// A series with more items than anybody can walk (span / step beyond 2^31, 2^32, 2^63, 2^64 ...): its first items are
+/// still start + k x step, it does not end early, `nth` lands where `next` would; a series whose exact count is small but
+/// whose span / step pair is large in every machine width is walked to its end.
+pub fn check_prefix(rep: &mut Rep, sc: i128, ss: TimeScale, span: i128, step: i128, incl: bool) {
+    if !rep.tick() || step <= 0 || span < 0 || !(MIN_NS..=MAX_NS).contains(&(sc + span)) {
+        return;
+    }
+    let count: i128 = if incl { span / step + 1 } else { (span + step - 1) / step };
+    let walk = count.min(40) as usize;
+    rep.class("series/count-beyond-machine-widths");
+    rep.nt(h64(&[77, sc as u64, span as u64, (span >> 64) as u64, step as u64, incl as u64, scale_idx(ss)]));
+    let (start, end, stp) = (ep(sc, ss), ep(sc + span, ss), mk(step));
+    let mk_ts = move || if incl { TimeSeries::inclusive(start, end, stp) } else { TimeSeries::exclusive(start, end, stp) };
+    let det = || format!("TimeSeries::{}(({}, {:?}), + {} ns, step {} ns) [{} items]", if incl { "inclusive" } else { "exclusive" }, sc, ss, span, step, count);
+    match guard(|| {
+        let mut it = mk_ts();
+        let head: Vec<Option<i128>> = (0..walk + 1).map(|_| it.next().map(|e| count_d(e.duration))).collect();
+        let nths: Vec<Option<i128>> = [0usize, 1, 7, 39].iter().map(|&j| mk_ts().nth(j).map(|e| count_d(e.duration))).collect();
+        let taken = mk_ts().take(25).count();
+        (head, nths, taken)
+    }) {
+        Err(p) => rep.fail(&format!("series/panic/{}", p.class()), None, || format!("{} panicked: {} at {}", det(), p.msg, p.loc)),
+        Ok((head, nths, taken)) => {
+            for (k, g) in head.iter().enumerate() {
+                let want = if (k as i128) < count { Some(sc + k as i128 * step) } else { None };
+                if *g != want {
+                    rep.fail("series/prefix", None, || format!("{}: item {k} = {:?}, want {:?}", det(), g, want));
+                    break;
+                }
+            }
+            for (g, &j) in nths.iter().zip([0usize, 1, 7, 39].iter()) {
+                let want = if (j as i128) < count { Some(sc + j as i128 * step) } else { None };
+                if *g != want {
+                    rep.fail("series/prefix-nth", None, || format!("{}: nth({j}) = {:?}, want {:?}", det(), g, want));
+                }
+            }
+            if taken as i128 != count.min(25) {
+                rep.fail("series/prefix-take", None, || format!("{}: take(25).count() = {taken}", det()));
+            }
+        }
+    }
+}
+
 fn dyn_of(a: TimeScale, b: TimeScale) -> bool {
     a != b && (is_dyn(a) || is_dyn(b))
 }
@@ -304,6 +347,16 @@ fn consumers(mk_it: &dyn Fn() -> TimeSeries, want: &[i128]) -> Option<String> {
     expect!("partition", mk_it().partition::<Vec<Epoch>, _>(|_| true).0.len(), n);
     expect!("reduce(max)", mk_it().reduce(|a, b| if b > a { b } else { a }).map(c), want.last().copied());
     expect!("try_for_each", { let mut k = 0usize; let _ = mk_it().try_for_each(|_| { k += 1; Some(()) }); k }, n);
+    // skip counts beyond every machine width a cursor might have (the series is short, so the default implementations end
+    // at the first None): nothing is left, and nothing comes back
+    for big in [usize::MAX, 1usize << 63, 1usize << 32, (1usize << 31) + 1] {
+        expect!(format!("nth({big})"), mk_it().nth(big).map(c), None);
+        expect!(format!("skip({big}).next()"), mk_it().skip(big).next().map(c), None);
+        expect!(format!("step_by({big})"), mk_it().step_by(big).map(c).collect::<Vec<_>>(), want.iter().take(1).copied().collect::<Vec<_>>());
+        let mut it = mk_it();
+        let first = it.next().map(c);
+        expect!(format!("next(); nth({big})"), (first, it.nth(big).map(c), it.next().map(c)), (want.first().copied(), None, None));
+    }
     // after the end, the end stays the end for every consumer
     let mut it = mk_it();
     for _ in it.by_ref() {}
@@ -409,6 +462,61 @@ pub fn run(cfg: &Cfg, rep: &mut Rep) {
                 check(rep, &w, sc, ss, sc - back, ss, step, incl, &[]);
             } else if let Some(x) = w.from_tai(w.to_tai(sc, ss), es) {
                 check(rep, &w, sc, ss, x - back, es, step, incl, &[]);
+            }
+        }
+    }
+    // span / step pairs that are large in every machine width (seed-independent)
+    if !cfg.fuzz {
+        let mut li = 0usize;
+        for p in [31u32, 32, 33, 53, 62, 63, 64, 65, 70] {
+            for step in [1i128, 2, 3, 7, 1000, NS_S + 1] {
+                for extra in [0i128, 1, 5, 39, 40] {
+                    for q in [1i128, 2, 3] {
+                        li += 1;
+                        if li % NSHARDS as usize != sh {
+                            continue;
+                        }
+                        // count = q * 2^p + extra (+1 when inclusive) items
+                        let span = (q * (1i128 << p) + extra) * step + if li % 3 == 0 { step - 1 } else { 0 };
+                        let ss = SCALES[li % 9];
+                        let sc = if li % 2 == 0 { -span / 2 } else { -(li as i128) * NS_D };
+                        check_prefix(rep, sc, ss, span, step, li % 2 == 0);
+                        check_prefix(rep, sc, ss, span, step, li % 2 == 1);
+                    }
+                }
+            }
+        }
+    }
+    // one series walked past 2^31 items (thorough only, one shard, about ten seconds): a cursor narrower than the count
+    if cfg.tier == Tier::Thorough && sh == 9 && cfg.budget_div == 1 {
+        let n: i128 = (1i128 << 31) + 6;
+        let (sc, ss) = (3_918_412_800_123_456_789i128, TimeScale::TAI);
+        let (start, end) = (ep(sc, ss), ep(sc + n, ss));
+        rep.class("series/walked-past-2^31-items");
+        let _ = rep.tick();
+        match guard(|| {
+            let mut k: i128 = 0;
+            let mut bad: Option<(i128, i128)> = None;
+            for e in TimeSeries::exclusive(start, end, mk(1)) {
+                let g = count_d(e.duration);
+                if g != sc + k && bad.is_none() {
+                    bad = Some((k, g));
+                    break;
+                }
+                k += 1;
+                if k > n + 2 {
+                    break;
+                }
+            }
+            (k, bad)
+        }) {
+            Err(p) => rep.fail(&format!("series/panic/{}", p.class()), None, || format!("walking 2^31 + 6 items at 1 ns steps panicked: {} at {}", p.msg, p.loc)),
+            Ok((k, bad)) => {
+                if let Some((kk, g)) = bad {
+                    rep.fail("series/long-walk-item", None, || format!("1 ns series from ({sc}, TAI): item {kk} = {g}, want {}", sc + kk));
+                } else if k != n {
+                    rep.fail("series/long-walk-count", None, || format!("1 ns exclusive series over 2^31 + 6 ns yielded {k} items, want {n}"));
+                }
             }
         }
     }
